@@ -135,7 +135,8 @@ class ContractMixin:
             self.grow_trace(st)
             return
         if mods.get('user'):
-            self.grow_trace(st)
+            if not mods.get('no_grow'):
+                self.grow_trace(st)
             # whatever unknown user code may do: everything except plumpy-internal objects (A-PRIV frame of the unit)
             self.havoc_user(st)
         def cond(r, new, old):
@@ -273,6 +274,12 @@ class ContractMixin:
             # ---- normal return
             normal_possible = not c.has('never_returns')
             mods = self.parse_modifies(s2, c, env)
+            ev_r = None
+            if c.opts.get('event') and fi is not None:
+                # an abstract (assumed) method that stands for unknown code: the call is logged in the trace like a user call
+                evv = self.record_user_call(s2, self.func_ref(fi), args)
+                ev_r = r_of(evv.term)
+                mods['no_grow'] = True     # like a user call: one event; what the unknown code calls in turn is not logged
             if normal_possible:
                 s3 = s2.copy()
                 if dbg0:
@@ -303,6 +310,11 @@ class ContractMixin:
                     e3['ret'] = res
                     if 'result' not in loc:
                         e3['result'] = res
+                if ev_r is not None:
+                    self.hstore(s3, ev_r, 'result', res.term)
+                    if self.config.get('user_results_foreign') and not c.opts.get('result_class'):
+                        s3.assume(z3.Implies(is_ref(res.term), z3.Select(s3.CL, r_of(res.term)) >= I(self.index.first_free_id)))
+                    res.tag = 'user_result'
                 self.run_lets(s3, c, e3, 'post')
                 # ghost updates of the callee: the cell gets a new value, characterised by the callee's postconditions
                 for call in c.calls('ghost_update'):
@@ -337,6 +349,8 @@ class ContractMixin:
                     s4.assume(AND(is_ref(et), r_of(et) < s4.A,
                                   self.is_subclass_term(z3.Select(s4.CL, r_of(et)), exc_cls.ci)))
                     ev = SV(et, 'ref', exc_cls.ci)
+                    if ev_r is not None:
+                        self.hstore(s4, ev_r, 'raised', et)
                     e4 = dict(env)
                     e4['exc'] = ev
                     self.run_lets(s4, c, e4, 'post', tolerant=True)
